@@ -22,6 +22,11 @@ pub fn strategy() -> BoxedStrategy<Scenario> {
         .prop_map(|(geo, seed, (fates, script, after), clean)| {
             let mut sc = simgen::scenario(Role::Receiver, geo, seed, false, fates, script, after, (true, true, clean));
             sc.pre_existing = seed % 4 == 0;
+            // one case in 16 runs with a file-size limit somewhere inside the upload
+            if seed % 16 == 5 && sc.file_len > 0 {
+                sc.fsize_limit = Some((seed >> 8) % (sc.file_len as u64 + 1));
+                sc.pre_existing = false;
+            }
             sc
         })
         .boxed()
@@ -38,7 +43,20 @@ pub fn big_window_strategy() -> BoxedStrategy<Scenario> {
         .boxed()
 }
 
+const CLASSES: &[&str] = &["worker-receives", "completed", "timeout", "fault-hit", "duplicate-data-delivered", "out-of-order-data-delivered", "stray-or-undecodable-delivered", "peer-error", "exact-multiple", "single-block", "empty-file", "write-limit"];
+
 pub fn judge(dir: &Path, sc: &Scenario, obs: &mut Obs) -> Judge {
+    match sc.fsize_limit {
+        // a disk that stops accepting data: ACK(k) must still imply that blocks 1..k are stored
+        Some(l) => in_limited_child(l, obs, CLASSES, |o| {
+            o.class("write-limit");
+            judge_plain(dir, sc, o)
+        }),
+        None => judge_plain(dir, sc, obs),
+    }
+}
+
+fn judge_plain(dir: &Path, sc: &Scenario, obs: &mut Obs) -> Judge {
     let (_r, _findings, fa) = run_and_judge(dir, sc, obs, &["R1", "R2", "R5"])?;
     obs.class_if(sc.ws > 1024 && fa.accepted_blocks > 1024, "window-above-1024-blocks");
     obs.nontrivial = fa.accepted_blocks >= 2 && (fa.data_dups_delivered + fa.data_gaps_delivered + fa.noise > 0 || sc.ws > 1024);
